@@ -229,48 +229,48 @@ func c07Run(c *rt.C, src map[string]string, id string, wantAccept bool, class st
 func semanticFaults() map[string]string {
 	base := "package iso.v1\n\n"
 	return map[string]string{
-		"unknown-type":          base + "object Foo {\n\tfield name strng\n}\n",
-		"unknown-qualifier":     base + "object Foo {\n\tfield count integer:INT33\n}\n",
-		"missing-qualifier":     base + "object Foo {\n\tfield count integer\n}\n",
-		"unknown-attribute":     base + "object Foo {\n\tfield name string {\n\t\tnoSuchAttribute = true\n\t}\n}\n",
-		"unknown-rule":          base + "object Foo {\n\tfield name string {\n\t\trules.noSuchRule = 1\n\t}\n}\n",
-		"wrong-attribute-type":  base + "object Foo {\n\tfield name string {\n\t\trules.minLength = \"one\"\n\t}\n}\n",
-		"required-and-optional": base + "object Foo {\n\tfield name string {\n\t\trequired = true\n\t\toptional = true\n\t}\n}\n",
-		"both-marks":            base + "object Foo {\n\tfield name ! ? string\n}\n",
-		"duplicate-field":       base + "object Foo {\n\tfield name string\n\tfield name string\n}\n",
-		"duplicate-object":      base + "object Foo {\n\tfield name string\n}\n\nobject Foo {\n\tfield other string\n}\n",
-		"duplicate-enum-option": base + "enum Color {\n\toption RED\n\toption RED\n}\n",
-		"unknown-ref":           base + "object Foo {\n\tfield bar object:NoSuchType\n}\n",
-		"unknown-package-ref":   base + "object Foo {\n\tfield bar object:nosuch.v1.Bar\n}\n",
-		"unknown-import":        base + "import nosuch.v1\n\nobject Foo {\n\tfield name string\n}\n",
-		"enum-ref-to-object":    base + "object Foo {\n\tfield bar enum:Bar\n}\n\nobject Bar {\n}\n",
-		"object-ref-to-enum":    base + "object Foo {\n\tfield bar object:Color\n}\n\nenum Color {\n\toption RED\n}\n",
-		"unknown-root-block":    base + "widget Foo {\n}\n",
-		"unknown-child-block":   base + "object Foo {\n\twidget name string\n}\n",
-		"field-without-type":    base + "object Foo {\n\tfield name\n}\n",
-		"field-without-name":    base + "object Foo {\n\tfield\n}\n",
-		"object-without-name":   base + "object {\n\tfield name string\n}\n",
-		"extra-tag":             base + "object Foo Bar {\n}\n",
-		"wrong-package":         "package other.v1\n\nobject Foo {\n}\n",
-		"no-package":            "object Foo {\n}\n",
-		"enum-rule-unknown":     base + "object Foo {\n\tfield color enum:Color {\n\t\trules.in = [\"PURPLE\"]\n\t}\n}\n\nenum Color {\n\toption RED\n}\n",
-		"bad-http-method":       base + "service Foo {\n\tmethod Bar {\n\t\thttpMethod = \"FETCH\"\n\t\thttpPath = \"/x\"\n\t\trequest {\n\t\t}\n\t}\n}\n",
-		"missing-path-field":    base + "service Foo {\n\tmethod Bar {\n\t\thttpMethod = \"GET\"\n\t\thttpPath = \"/x/:missing\"\n\t\trequest {\n\t\t}\n\t\tresponse {\n\t\t}\n\t}\n}\n",
+		"unknown-type":           base + "object Foo {\n\tfield name strng\n}\n",
+		"unknown-qualifier":      base + "object Foo {\n\tfield count integer:INT33\n}\n",
+		"missing-qualifier":      base + "object Foo {\n\tfield count integer\n}\n",
+		"unknown-attribute":      base + "object Foo {\n\tfield name string {\n\t\tnoSuchAttribute = true\n\t}\n}\n",
+		"unknown-rule":           base + "object Foo {\n\tfield name string {\n\t\trules.noSuchRule = 1\n\t}\n}\n",
+		"wrong-attribute-type":   base + "object Foo {\n\tfield name string {\n\t\trules.minLength = \"one\"\n\t}\n}\n",
+		"required-and-optional":  base + "object Foo {\n\tfield name string {\n\t\trequired = true\n\t\toptional = true\n\t}\n}\n",
+		"both-marks":             base + "object Foo {\n\tfield name ! ? string\n}\n",
+		"duplicate-field":        base + "object Foo {\n\tfield name string\n\tfield name string\n}\n",
+		"duplicate-object":       base + "object Foo {\n\tfield name string\n}\n\nobject Foo {\n\tfield other string\n}\n",
+		"duplicate-enum-option":  base + "enum Color {\n\toption RED\n\toption RED\n}\n",
+		"unknown-ref":            base + "object Foo {\n\tfield bar object:NoSuchType\n}\n",
+		"unknown-package-ref":    base + "object Foo {\n\tfield bar object:nosuch.v1.Bar\n}\n",
+		"unknown-import":         base + "import nosuch.v1\n\nobject Foo {\n\tfield name string\n}\n",
+		"enum-ref-to-object":     base + "object Foo {\n\tfield bar enum:Bar\n}\n\nobject Bar {\n}\n",
+		"object-ref-to-enum":     base + "object Foo {\n\tfield bar object:Color\n}\n\nenum Color {\n\toption RED\n}\n",
+		"unknown-root-block":     base + "widget Foo {\n}\n",
+		"unknown-child-block":    base + "object Foo {\n\twidget name string\n}\n",
+		"field-without-type":     base + "object Foo {\n\tfield name\n}\n",
+		"field-without-name":     base + "object Foo {\n\tfield\n}\n",
+		"object-without-name":    base + "object {\n\tfield name string\n}\n",
+		"extra-tag":              base + "object Foo Bar {\n}\n",
+		"wrong-package":          "package other.v1\n\nobject Foo {\n}\n",
+		"no-package":             "object Foo {\n}\n",
+		"enum-rule-unknown":      base + "object Foo {\n\tfield color enum:Color {\n\t\trules.in = [\"PURPLE\"]\n\t}\n}\n\nenum Color {\n\toption RED\n}\n",
+		"bad-http-method":        base + "service Foo {\n\tmethod Bar {\n\t\thttpMethod = \"FETCH\"\n\t\thttpPath = \"/x\"\n\t\trequest {\n\t\t}\n\t}\n}\n",
+		"missing-path-field":     base + "service Foo {\n\tmethod Bar {\n\t\thttpMethod = \"GET\"\n\t\thttpPath = \"/x/:missing\"\n\t\trequest {\n\t\t}\n\t\tresponse {\n\t\t}\n\t}\n}\n",
 		"method-without-request": base + "service Foo {\n\tmethod Bar {\n\t\thttpMethod = \"GET\"\n\t\thttpPath = \"/x\"\n\t}\n}\n",
-		"topic-unknown-type":    base + "topic Foo broadcast {\n}\n",
-		"topic-message-name":    base + "topic Foo publish {\n\tmessage x {\n\t}\n}\n",
-		"entity-no-status":      base + "entity Foo {\n\tkey fooId key:id62\n}\n",
-		"entity-no-key":         base + "entity Foo {\n\tstatus ACTIVE\n}\n",
-		"array-of-array":        base + "object Foo {\n\tfield x array:array:string\n}\n",
-		"map-of-map":            base + "object Foo {\n\tfield x map:map:string\n}\n",
-		"int-overflow":          base + "object Foo {\n\tfield x integer:INT32 {\n\t\trules.maximum = 99999999999999999999\n\t}\n}\n",
-		"self-flatten":          base + "object Foo {\n\tfield foo object:Foo {\n\t\tflatten = true\n\t}\n}\n",
-		"lowercase-type-name":   base + "object foo {\n\tfield name string\n}\n",
-		"field-name-with-dash":  base + "object Foo {\n\tfield \"my-name\" string\n}\n",
-		"keyword-as-name":       base + "object Foo {\n\tfield field field\n}\n",
-		"unicode-name":          base + "object Foo {\n\tfield naïve string\n}\n",
-		"oneof-scalar-option":   base + "oneof Foo {\n\toption name string\n}\n",
-		"inline-name-clash":     base + "object Foo {\n\tfield bar object {\n\t\tfield x string\n\t}\n\tfield baz object {\n\t\tobject.name = \"Bar\"\n\t\tfield y string\n\t}\n}\n",
+		"topic-unknown-type":     base + "topic Foo broadcast {\n}\n",
+		"topic-message-name":     base + "topic Foo publish {\n\tmessage x {\n\t}\n}\n",
+		"entity-no-status":       base + "entity Foo {\n\tkey fooId key:id62\n}\n",
+		"entity-no-key":          base + "entity Foo {\n\tstatus ACTIVE\n}\n",
+		"array-of-array":         base + "object Foo {\n\tfield x array:array:string\n}\n",
+		"map-of-map":             base + "object Foo {\n\tfield x map:map:string\n}\n",
+		"int-overflow":           base + "object Foo {\n\tfield x integer:INT32 {\n\t\trules.maximum = 99999999999999999999\n\t}\n}\n",
+		"self-flatten":           base + "object Foo {\n\tfield foo object:Foo {\n\t\tflatten = true\n\t}\n}\n",
+		"lowercase-type-name":    base + "object foo {\n\tfield name string\n}\n",
+		"field-name-with-dash":   base + "object Foo {\n\tfield \"my-name\" string\n}\n",
+		"keyword-as-name":        base + "object Foo {\n\tfield field field\n}\n",
+		"unicode-name":           base + "object Foo {\n\tfield naïve string\n}\n",
+		"oneof-scalar-option":    base + "oneof Foo {\n\toption name string\n}\n",
+		"inline-name-clash":      base + "object Foo {\n\tfield bar object {\n\t\tfield x string\n\t}\n\tfield baz object {\n\t\tobject.name = \"Bar\"\n\t\tfield y string\n\t}\n}\n",
 	}
 }
 
